@@ -51,9 +51,10 @@ Theorem C09_diff_keepaxis : forall sc i a res,
   axes res = axes a /\ attrs res = attrs a /\
   forall c, inb (sh (vals res)) c = true ->
     get (vals res) c =
-    nth (nth i c 0) (match sc with
+    nth (nth i c 0) (pad_num (kd (vals a))
+                    (match sc with
                      | Backward => CNaN :: diff_fibre (fibre (vals a) i (remove_nth i c))
-                     | _ => diff_fibre (fibre (vals a) i (remove_nth i c)) ++ [CNaN] end) CNaN.
+                     | _ => diff_fibre (fibre (vals a) i (remove_nth i c)) ++ [CNaN] end)) CNaN.
 Proof. exact diff1_keepaxis. Qed.
 Print Assumptions C09_diff_keepaxis.
 (* centered: successive midpoints *)
